@@ -1,4 +1,5 @@
 import PermutaModel.Model.C17
+import PermutaModel.Model.C17Auto
 import PermutaModel.Spec.C17
 open Proto
 
@@ -57,6 +58,66 @@ def parseRep (s : String) : Option Rep :=
 
 def parseOptNat (s : String) : Option Nat := if s == "N" then none else some (parseNat s)
 
+
+/-! ### `auto_bisc`: the nondeterministic model against the implementation's answer
+
+`automodel <patterns> <answer of the implementation>`: the property is "avoids all of these mesh patterns".
+`autoSearch` (glue, nothing is proved about it) looks breadth first for choices - an index into the list of bases at
+every choice point `(n, ib)` - under which the model returns the implementation's answer; the line then prints what the
+model `Model.C17.autoBiscProp` (the definition the theorems are about) returns under *that* choice function.  When no
+such choices exist the run that always takes the first basis is printed (and differs from the implementation). -/
+
+abbrev Path := List ((Nat × Nat) × Nat)
+
+def chOf (path : Path) : Choice := fun n ib _ => (path.lookup (n, ib)).getD 0
+
+inductive St where
+  | outer (L n m : Nat) (path : Path)
+  | inner (SG : PattDict) (L m n ib : Nat) (path : Path)
+
+/-- one expansion: either the choices that reach `target`, or the successor states -/
+def expand (A B : Nat → List NSeq) (target : String) : St → Sum Path (List St)
+  | .outer L n m path =>
+    let SG := biscD (dflt A L) m n
+    if learnOk SG B L then .inr [.inner SG L m n (ibStart SG) path]
+    else .inr [.outer (max L (n + 2)) (n + 1) (m + 1) path]
+  | .inner SG L m n ib path =>
+    match runCleanUp SG (dflt B L) n ib with
+    | .error _ => .inr []
+    | .ok [] => .inr [.inner SG L m n (ib + 1) path]
+    | .ok bases =>
+      let vs := (List.range bases.length).zip (bases.map fun b => (verdict A B L (toSg b), b))
+      match vs.find? fun v => v.2.1 == .accept && showDict (toSg v.2.2) == target with
+      | some v => .inl (path ++ [((n, ib), v.1)])
+      | none =>
+        .inr (
+          (match vs.find? fun v => v.2.1 == .badBasis with
+           | some v => [.inner SG L m (n + 1) ib (path ++ [((n, ib), v.1)])]
+           | none => []) ++
+          (match vs.find? fun v => v.2.1 == .needLonger with
+           | some v => [.outer (max L (n + 2)) (n + 1) m (path ++ [((n, ib), v.1)])]
+           | none => []))
+
+def autoSearch (A B : Nat → List NSeq) (target : String) : Nat → List St → Path
+  | 0, _ => []
+  | _, [] => []
+  | f + 1, s :: rest =>
+    match expand A B target s with
+    | .inl path => path
+    | .inr succ => autoSearch A B target f (rest ++ succ)
+
+def showAuto : AutoRes → String
+  | .found sg => showDict sg
+  | .outOfFuel => "outOfFuel"
+  | .err e => e.show
+
+/-- memo tables for the lengths `0 … 8` (extensionally `goodOf P` / `badOf P`) -/
+def tabOf (f : Nat → List NSeq) : Array (List NSeq) := ((List.range 9).map f).toArray
+def fromTab (tab : Array (List NSeq)) (f : Nat → List NSeq) (k : Nat) : List NSeq :=
+  if k < 9 then tab.getD k [] else f k
+
+def autoFuel : Nat := 12
+
 def handle (op : String) (a : List String) : Option String :=
   match op, a with
   | "bisc", ["tuple", _, _, _] => some Err.assertion.show     -- bisc.py:39-46 `assert False`
@@ -89,6 +150,29 @@ def handle (op : String) (a : List String) : Option String :=
         if bases.isEmpty then "none" else
           "&".intercalate ((bases.map fun b => showDict (toSg b)).mergeSort fun x y => !(y < x)))
       (runCleanUp (parseDict SG) Bk (parseNat bm) (parseNat lim)))
+  | "automodel", [spec, target] =>
+    let ms := parseMeshes spec
+    let P : NSeq → Bool := fun σ => ms.all fun m => !Model.containsMesh σ m
+    let tA := tabOf (goodOf P)
+    let tB := tabOf (badOf P)
+    let A := fromTab tA (goodOf P)
+    let B := fromTab tB (badOf P)
+    let path := autoSearch A B target 64 [.outer 8 4 2 []]
+    some (showAuto (autoBisc autoFuel (chOf path) A B))
+  | "autoall", [fuel, spec] =>
+    -- every result the choices allow within `fuel` loop-body executions (distinct, canonical, sorted)
+    let ms := parseMeshes spec
+    let P : NSeq → Bool := fun σ => ms.all fun m => !Model.containsMesh σ m
+    let tA := tabOf (goodOf P)
+    let tB := tabOf (badOf P)
+    let rs := (autoBiscAll (parseNat fuel) (fromTab tA (goodOf P)) (fromTab tB (badOf P))).map showAuto
+    some ("&".intercalate (dedupAdj (rs.mergeSort fun x y => !(y < x))))
+  | "autofirst", [spec] =>
+    let ms := parseMeshes spec
+    let P : NSeq → Bool := fun σ => ms.all fun m => !Model.containsMesh σ m
+    let tA := tabOf (goodOf P)
+    let tB := tabOf (badOf P)
+    some (showAuto (autoBisc autoFuel (fun _ _ _ => 0) (fromTab tA (goodOf P)) (fromTab tB (badOf P))))
   | _, _ => none
 
 end Driver.C17
